@@ -322,9 +322,12 @@ func c07r3(c *Check) {
 				continue
 			}
 			cfg := &PathCfg{
-				Stop:        func(x *ssa.BasicBlock) bool { return x == loops[0].Header },
-				Classify:    classify,
-				Inline:      func(callee *ssa.Function) bool { return callee.Parent() != nil },
+				Stop:     func(x *ssa.BasicBlock) bool { return x == loops[0].Header },
+				Classify: classify,
+				// closures, and helper methods of the same type (an extracted hand-off step)
+				Inline: func(callee *ssa.Function) bool {
+					return callee.Parent() != nil || (callee.Signature.Recv() != nil && fn.Signature.Recv() != nil && types.Identical(callee.Signature.Recv().Type(), fn.Signature.Recv().Type()))
+				},
 				HigherOrder: map[string]int{"(github.com/Dieterbe/go-metrics.Timer).Time": 0},
 			}
 			paths, _ := EnumPaths(fn, b, cfg)
